@@ -325,12 +325,6 @@ def cache_suffices(cache, name, now):
     return bool(live) and all(has_addr(s["srv"][0].lower()) for s in live)
 
 
-def shadowed_srv(cache, name, now):
-    """finding signature: the newest SRV key object of the instance is expired while an older one is not"""
-    srvs = [s for s in cache if s["type"] == 33 and s["cls"] == 1 and s["name"].lower() == name.lower()]
-    return bool(srvs) and expired(srvs[-1], now) and any(not expired(s, now) for s in srvs[:-1])
-
-
 def oracle(sc, obs):
     """-> list of (sig, what)"""
     out = []
@@ -378,8 +372,7 @@ def oracle(sc, obs):
     # --- cache first
     if cache_suffices(s0["cache"], name, s0["now"]):
         if not (s0["ret"] is True and not s0["sent"] and obs["t_ret"] == obs["t0"]):
-            sig = "C18:cachefirst-shadowed-by-expired-srv" if shadowed_srv(s0["cache"], name, s0["now"]) else "C18:cachefirst"
-            out.append((sig, "the cache held an unexpired SRV and an unexpired address of its host, yet the lookup %s"
+            out.append(("C18:cachefirst", "the cache held an unexpired SRV and an unexpired address of its host, yet the lookup %s"
                         % ("transmitted a query" if any(b["sent"] for b in blocks) else "did not answer at once")))
     # --- QU then QM; questions whose (unique) answer is already held are omitted
     forced = sc.get("forced", 0)
